@@ -579,6 +579,14 @@ func famC17(g *Gen, o *Out, n int, thorough bool) {
 		useCli := c%3 == 2
 		cliPath := ""
 		if useCli {
+			if forcedP == "" && g.pick(3) == 0 {
+				// the output directory does not exist yet and is spelled through a link and "..": what the
+				// user named is what the operating system resolves that to, nothing next to the link
+				os.MkdirAll(filepath.Join(sb, "real2", "sub"), 0o755)
+				os.Symlink(filepath.Join(sb, "real2", "sub"), filepath.Join(sb, "lnk"))
+				outArg = filepath.Join(sb, "lnk") + "/../newout"
+				before = snapshot(sb)
+			}
 			args := []string{"extract", "-f", carPath}
 			if g.pick(2) == 0 {
 				cliPath = []string{"a", "a/b", "evil", "evil/x", "sub/a", "b/c/d", "x", "a/d", "x/d/g"}[g.pick(9)]
